@@ -62,7 +62,7 @@ pub(crate) fn synopsis(roff: &mut Roff, cmd: &clap::Command) {
         line.push(roman(" "));
     }
 
-    for arg in cmd.get_positionals() {
+    for arg in cmd.get_positionals().filter(|i| !i.is_hide_set()) {
         let (lhs, rhs) = option_markers(arg);
         line.push(roman(lhs));
         if let Some(value) = arg.get_value_names() {
